@@ -198,6 +198,13 @@ func runC02(c *Ctx, r *Report) {
 	}
 	r.floor("entries of the accent table", n, 300)
 	defer c02r3(c, r)
+	defer func() {
+		r.rule("C02-R4", "H + A (shared with C03-R2)", "P1", "slab-independent bound on the pattern length before the int16 score matrices (and the slab-size headroom of C03-R2)", "matching crashes (index out of range in the back-trace) for a very long pattern when no slab / a larger slab is used")
+		sm, _ := constOf(l, "algo", "scoreMatch")
+		bb, _ := constOf(l, "algo", "bonusBoundary")
+		mult, _ := constOf(l, "algo", "bonusFirstCharMultiplier")
+		c03PatternGuard(c, r, sm, bb+2, mult)
+	}()
 	r.check(n > 0 && minK >= lo && maxK <= hi, "algo.normalized within guard", g.Pos(), nil,
 		fmt.Sprintf("%d table keys span [%#x, %#x], inside normalizeRune's guard [%#x, %#x]", n, minK, maxK, lo, hi),
 		fmt.Sprintf("keys span [%#x, %#x] but only [%#x, %#x] reaches the table", minK, maxK, lo, hi))
@@ -277,13 +284,19 @@ func runC03(c *Ctx, r *Report) {
 	} else {
 		maxM := int64(math.Floor(math.Sqrt(float64(s16))))
 		bound := (sm+maxBonus)*maxM + maxBonus*(mult-1)
-		r.check(bound <= math.MaxInt16, "int16 headroom (slab-bounded pattern)", l.Const("fzf", "slab16Size").Pos(), nil,
-			fmt.Sprintf("M <= floor(sqrt(%d)) = %d when N*M <= slab: (%d+%d)*%d + %d = %d <= 32767", s16, maxM, sm, maxBonus, maxM, maxBonus*(mult-1), bound),
-			fmt.Sprintf("(%d+%d)*%d + %d = %d > 32767: int16 scores wrap", sm, maxBonus, maxM, maxBonus*(mult-1), bound))
+		// only needed when FuzzyMatchV2 has no slab-independent bound on the pattern length (judged below)
+		if bound <= math.MaxInt16 {
+			r.ok("int16 headroom (slab-bounded pattern)", l.Const("fzf", "slab16Size").Pos(), nil,
+				fmt.Sprintf("M <= floor(sqrt(%d)) = %d when N*M <= slab: (%d+%d)*%d + %d = %d <= 32767", s16, maxM, sm, maxBonus, maxM, maxBonus*(mult-1), bound))
+		} else {
+			r.info("int16 headroom (slab-bounded pattern)", l.Const("fzf", "slab16Size").Pos(), nil,
+				fmt.Sprintf("the slab alone no longer bounds the pattern enough ((%d+%d)*%d + %d = %d > 32767); the explicit pattern-length guard below must hold", sm, maxBonus, maxM, maxBonus*(mult-1), bound))
+		}
 		b2 := (sm+maxBonus)*mpl + maxBonus*(mult-1)
 		r.check(b2 <= math.MaxInt16, "int16 headroom (interactive pattern limit)", l.Const("fzf", "maxPatternLength").Pos(), nil,
 			fmt.Sprintf("interactive queries are truncated to %d runes: (%d+%d)*%d + %d = %d <= 32767", mpl, sm, maxBonus, mpl, maxBonus*(mult-1), b2), "the interactive pattern limit alone allows a wrap")
 	}
+	c03PatternGuard(c, r, sm, maxBonus, mult)
 	v2 := l.Fn("algo", "FuzzyMatchV2")
 	a16 := l.Fn("algo", "alloc16")
 	fI16 := l.Field("util", "Slab", "I16")
@@ -752,4 +765,71 @@ func c02r3(c *Ctx, r *Report) {
 		r.check(guarded, fmt.Sprintf("algo.exactMatchNaive:boundary bonus test #%d", n), in.Pos(), f, "the boundary-bonus test is evaluated under the guard where the bonus was computed (first pattern character)", "the bonus is tested on every character: in a backward scan it is still zero when the last pattern character is compared")
 	})
 	r.floor("boundary-bonus tests inside the boundaryCheck branch", n, 1)
+}
+
+// c03PatternGuard: slab-independent int16 headroom — V2's matrices are reached only for len(pattern) <= K with
+// (scoreMatch+maxBonus)*K + maxBonus*(mult-1) <= MaxInt16 (shared with C02: "with/without scratch slab ... never crashes").
+func c03PatternGuard(c *Ctx, r *Report, sm, maxBonus, mult int64) {
+	l := c.L
+	v2 := l.Fn("algo", "FuzzyMatchV2")
+	a16 := l.Fn("algo", "alloc16")
+	if v2 == nil || a16 == nil {
+		return
+	}
+	pc := pathConds(v2)
+	isM := func(x ssa.Value) bool {
+		call, ok := x.(*ssa.Call)
+		if !ok || calleeName(call.Common()) != "builtin.len" {
+			return false
+		}
+		p, ok := call.Call.Args[0].(*ssa.Parameter)
+		return ok && p.Name() == "pattern"
+	}
+	K := int64(-1)
+	var first ssa.Instruction
+	eachInstr(v2, func(in ssa.Instruction) {
+		if first == nil && staticCallee(in) == a16 {
+			first = in
+		}
+	})
+	if first == nil {
+		return
+	}
+	// upper bound on M established at the first carve (at a dominator if needed)
+	for d := first.Block(); d != nil && K < 0; d = d.Idom() {
+		for _, dj := range pc.At(d) {
+			best := int64(-1)
+			for _, lt := range dj {
+				x, op, k, ok := cmpInt(lt.Atom)
+				if !ok || !isM(x) {
+					continue
+				}
+				switch {
+				case op == token.GTR && !lt.Val:
+					best = k
+				case op == token.GEQ && !lt.Val:
+					best = k - 1
+				case op == token.LEQ && lt.Val:
+					best = k
+				case op == token.LSS && lt.Val:
+					best = k - 1
+				}
+			}
+			if best < 0 {
+				K = -1
+				break
+			}
+			if K < 0 || best > K {
+				K = best
+			}
+		}
+	}
+	if K < 0 {
+		r.bad("algo.FuzzyMatchV2:pattern length guard", first.Pos(), v2, "the O(nm) matrices are reached only for a bounded pattern length", "no upper bound on len(pattern) is established before the int16 matrices are carved: without a slab (or with a larger one) a long pattern wraps the scores and the back-trace indexes out of range")
+		return
+	}
+	bound := (sm+maxBonus)*K + maxBonus*(mult-1)
+	r.check(bound <= 32767, "algo.FuzzyMatchV2:pattern length guard", first.Pos(), v2,
+		fmt.Sprintf("len(pattern) <= %d at the matrices: (%d+%d)*%d + %d = %d <= 32767, whatever slab is passed (nil included)", K, sm, maxBonus, K, maxBonus*(mult-1), bound),
+		fmt.Sprintf("len(pattern) may reach %d: worst-case score %d exceeds MaxInt16", K, bound))
 }
